@@ -158,10 +158,12 @@ func (s *Server) Run(addr string, opt ...Option) error {
 	if err != nil {
 		return fmt.Errorf("%s: %w", op, err)
 	}
+	verifGate("run.pre_listen")
 	s.mu.Lock()
 	s.listener, err = net.Listen("tcp", addr)
 	s.listenerReady = err == nil
 	s.mu.Unlock()
+	verifGate("run.post_listen")
 	if err != nil {
 		return fmt.Errorf("%s: unable to listen to addr %s: %w", op, addr, err)
 	}
@@ -219,6 +221,7 @@ func (s *Server) Run(addr string, opt ...Option) error {
 			return fmt.Errorf("%s: error accepting conn: %w", op, err)
 		}
 		acceptDelay = 0
+		verifGate("run.accepted", connID)
 		// register the conn with the wait group, unless the server has been
 		// stopped in the meantime: Stop holds the read lock while it cancels
 		// and waits, so it either sees this conn or we see its cancellation.
@@ -262,11 +265,14 @@ func (s *Server) Run(addr string, opt ...Option) error {
 				// waiting on it: when Stop returns every conn must be closed,
 				// its handlers finished and its onCloseHandler called.
 				s.logger.Debug("connWg done", "op", op, "conn", localConnID)
+				verifGate("conn.teardown.pre_done", localConnID)
 				s.connWg.Done()
 			}()
 			defer func() {
+				verifGate("conn.teardown.pre_close", localConnID)
 				err := conn.close()
 				close(connDone)
+				verifGate("conn.teardown.post_close", localConnID)
 				if err != nil {
 					s.logger.Error("error closing conn", "op", op, "conn", localConnID, "conn/req", "err", err)
 					// we are intentionally not returning here; since we still
@@ -335,10 +341,12 @@ func (s *Server) Stop() error {
 			}
 		}
 	}
+	verifGate("stop.closed")
 	if s.shutdownCancel != nil {
 		s.logger.Debug("shutdown cancel func")
 		s.shutdownCancel()
 	}
+	verifGate("stop.cancelled")
 	s.logger.Debug("waiting on connections to close")
 	s.connWg.Wait()
 	s.logger.Debug("stopped")
